@@ -8,10 +8,12 @@ TRUSTED_CORE = [
 ]
 
 
-def contract_tasks(module, prop, configure=None, names=None):
+def contract_tasks(module, prop, configure=None, names=None, tier="quick"):
     mod = importlib.import_module(module)
     out = []
     for c in getattr(mod, "CONTRACTS", []):
+        if getattr(c, "thorough_only", False) and tier != "thorough":
+            continue
         if prop in c.property_ids and (names is None or type(c).__name__ in names):
             t = {"kind": "contract", "module": module, "name": type(c).__name__}
             conf = getattr(c, "configure", None) or configure
